@@ -95,6 +95,7 @@ type W struct {
 	noFork    bool
 	inHook    bool
 	allowInit bool
+	stubMode  int
 	pcSet     map[int32]struct{}
 	obligs    []oblig
 	nextOb    int
